@@ -19,6 +19,11 @@ HOST_KINDS = ('AttributeError', 'TypeError', 'KeyError', 'IndexError', 'Assertio
               'NameError', 'UnboundLocalError')
 
 
+LOCAL_ACCESS = frozenset(
+    [b + t for b in ('readl', 'readidxl') for t in '%&!#$@'] +
+    ['storel', 'storeidxl', 'pushrefl', 'initarrl'])
+
+
 def tch(cell):
     return TCH.get(getattr(cell.type, 'name', None), '?')
 
@@ -160,6 +165,22 @@ class Monitor:
                     r = m.step(a[0], a[1])
                     self._memo[a] = r
                 acts, viol = r
+        op = ent[0]
+        act = self.acts[-1]
+        if op in ('ret', 'retv') and act.gosubs:
+            # the routine returns while one of its GOSUBs is active: `ret`
+            # takes the GOSUB's return address for the routine's own
+            self._v('ret-with-active-gosub', pc,
+                    f'{op} with {len(act.gosubs)} active GOSUB return address(es) above the '
+                    f'routine\'s own return address')
+            return
+        if op in LOCAL_ACCESS and act.routine is not None:
+            cr = m.routine_at(pc)
+            if cr is not None and cr is not act.routine:
+                self._v('foreign-frame-access', pc,
+                        f'{op} in the code of {cr.name} executes on the frame of '
+                        f'{act.routine.name}')
+                return
         st = cpu.stack
         top = st[-1] if st else None
         self._pre = (pc, ent, acts, viol, len(st), cpu.error_handler_active,
@@ -279,7 +300,9 @@ class Monitor:
                     self._visited_check(pc)
                     self.conf_ticks += 1
                     return
-            elif k == 'resume':
+            elif k in ('resume', 'bound'):
+                # RESUME: the target is data (the failing statement); GOSUB
+                # beyond the exploration bound: the model does not follow
                 self.abs = (npc, self._rebuild(cpu))
                 self.resynced = True
                 self.conf_ticks += 1
